@@ -615,6 +615,35 @@ class Enumerator:
             if exc:
                 out.append((st1, ("raise", exc)))
                 continue
+            # a literal tuple / list of a few elements: unroll (the loop is a spelling of consecutive statements)
+            if isinstance(it, (ast.Tuple, ast.List)) and 0 < len(it.elts) <= 8 and not any(isinstance(x, ast.Starred) for x in it.elts):
+                states: list[tuple[St, tuple]] = [(st1, NORMAL)]
+                for elt in it.elts:
+                    nxt: list[tuple[St, tuple]] = []
+                    for cur, o in states:
+                        if o is not NORMAL:
+                            nxt.append((cur, o))
+                            continue
+                        for st_b, exc_b in self.bind(s.target, elt, cur, s, quiet=True):
+                            if exc_b:
+                                nxt.append((st_b, ("raise", exc_b)))
+                                continue
+                            for s2, o2 in self.exec_block(s.body, st_b):
+                                if o2 is NORMAL or o2 == CONTINUE:
+                                    nxt.append((s2, NORMAL))
+                                elif o2 == BREAK:
+                                    nxt.append((s2, ("$broke",)))
+                                else:
+                                    nxt.append((s2, o2))
+                    states = nxt
+                for cur, o in states:
+                    if o == ("$broke",):
+                        out.append((cur, NORMAL))
+                    elif o is NORMAL:
+                        out.extend(self.exec_block(s.orelse, cur))
+                    else:
+                        out.append((cur, o))
+                continue
             # lazy iteration: a generator expression's body, and the iterator a call returned, can fail at any next()
             lazy = [n for n in ast.walk(it) if isinstance(n, ast.Call)] if isinstance(it, ast.GeneratorExp) else ([it] if isinstance(it, ast.Call) else [])
             for n in lazy:
